@@ -121,3 +121,10 @@ Theorem C06_api_files_continuous_chunked : forall c ops, vcfg c -> c_chunk c = t
   Forall (C06_file c) (all_files (p_w (fold_left (api_state c) ops py_init))).
 Proof. exact api_files_C06_continuous_chunked. Qed.
 Print Assumptions C06_api_files_continuous_chunked.
+
+(* the sequence numbers after ANY history of public API calls (every mode and layout, no hypothesis on
+   the arguments): strictly increasing along the files in creation order (= file-time order by the
+   refinement theorems), never above the writer's counter *)
+Theorem C06_api_sequence_numbers : forall c ops, SeqInv (p_w (fold_left (api_state c) ops py_init)).
+Proof. exact api_sequence_numbers. Qed.
+Print Assumptions C06_api_sequence_numbers.
